@@ -162,6 +162,16 @@ func (c *Ctx) PathOf(v ssa.Value) (Path, bool) {
 		case *ssa.FieldAddr:
 			fields = append([]string{fieldName(x.X.Type(), x.Field)}, fields...)
 			v = x.X
+			// a local copy of a struct (`opts := n.data.Step.ContinueOn; opts.Failure`)
+			// that is assigned once and never written field by field reads what it copied
+			if al, isA := x.X.(*ssa.Alloc); isA {
+				if st := StoresTo(al); len(st) == 1 && !fieldWritten(al) {
+					switch st[0].(type) {
+					case *ssa.UnOp, *ssa.Parameter: // a copy read from a path, or a struct parameter spilled into a local
+						v = st[0]
+					}
+				}
+			}
 			continue
 		case *ssa.Field:
 			fields = append([]string{fieldName(x.X.Type(), x.Field)}, fields...)
@@ -329,4 +339,18 @@ func boundConst(v ssa.Value) ssa.Value {
 		}
 	}
 	return v
+}
+
+// fieldWritten: some field of the local is stored to through its address.
+func fieldWritten(al *ssa.Alloc) bool {
+	for _, ref := range *al.Referrers() {
+		if fa, ok := ref.(*ssa.FieldAddr); ok {
+			for _, r2 := range *fa.Referrers() {
+				if st, isS := r2.(*ssa.Store); isS && st.Addr == ssa.Value(fa) {
+					return true
+				}
+			}
+		}
+	}
+	return false
 }
